@@ -599,3 +599,25 @@ Check policy_prepend_then_export :
         else (2, external_asn x) :: repeat (2, pa_asn pa) (N.to_nat (pa_repeat pa))
                                    ++ tflat (strip_confed_spec (segs_of pin)).
 Print Assumptions policy_prepend_then_export.
+
+(* (4, converse) The drops of the receive path are exactly the loops: an UPDATE that is
+   none of the four loops IS handed to insert_route, with LOCAL_PREF defaulted on iBGP
+   sessions ([rx_attrs]). *)
+Theorem loop_free_installed :
+  forall x rid cid attrs pin,
+    path_of attrs pin ->
+    (forall a, find_code ORIGINATOR_ID attrs = Some a -> exists v, a_data a = DVal v) ->
+    (forall a c, cid = Some c -> find_code CLUSTER_LIST attrs = Some a ->
+       c < 4294967296 /\ exists ids, binary a = Some (cluster_list_bytes ids) /\ Forall (fun i => i < 4294967296) ids) ->
+    ~ looped x rid cid attrs ->
+    rx_reach x rid cid attrs = Ok (Some (rx_attrs x attrs)).
+Proof. exact C09_loop_free_installed. Qed.
+Check loop_free_installed :
+  forall x rid cid attrs pin,
+    path_of attrs pin ->
+    (forall a, find_code ORIGINATOR_ID attrs = Some a -> exists v, a_data a = DVal v) ->
+    (forall a c, cid = Some c -> find_code CLUSTER_LIST attrs = Some a ->
+       c < 4294967296 /\ exists ids, binary a = Some (cluster_list_bytes ids) /\ Forall (fun i => i < 4294967296) ids) ->
+    ~ looped x rid cid attrs ->
+    rx_reach x rid cid attrs = Ok (Some (rx_attrs x attrs)).
+Print Assumptions loop_free_installed.
